@@ -16,10 +16,14 @@
    histories whose total stays below 2^53 (C04_redis_values): the sorted set evolves by the
    ZREM/ZADD/ZPOPMIN step of Insert, the estimates are those of the Redis sketch, which equal the
    in-memory ones there (Proofs/RedisCMSRefine.v); a new Top-K with fresh keys satisfies the
-   invariant (C04_redis_new). *)
+   invariant (C04_redis_new).
+   Last clause of the property (C04_mem_exact_without_collisions, C04_redis_exact_without_collisions):
+   whenever the sketch is exact on the inserted elements, every reported count IS the element's
+   true total and no element left out is heavier than any reported one -- the report is a top-k
+   set with exact counts, ties at the boundary going either way. *)
 From GX.Model Require Import Base CMS Heap TopK Redis RedisCMS RedisTopK.
 From GX.Proofs Require Import ListLemmas CMSProofs HeapProofs TopKProofs TopKInv RedisCMSRefine TopKRedisInv.
-From GX.Proofs Require Import RedisTopKDoc NonVacuity.
+From GX.Proofs Require Import RedisTopKDoc NonVacuity TopKExact.
 From Coq Require Import Permutation Sorted.
 
 Theorem C04_values_partial : forall t,
@@ -120,3 +124,38 @@ Print Assumptions C04_heap_pop.
 Print Assumptions C04_heap_remove.
 Print Assumptions C04_redis_values.
 Print Assumptions C04_redis_new.
+
+(* no collisions => exact top k *)
+Theorem C04_mem_exact_without_collisions : forall cpos rows cols,
+  (forall x, length (cpos rows cols x) = N.to_nat rows) ->
+  (forall x p, In p (cpos rows cols x) -> p < cols) ->
+  forall k s0 ins t,
+  1 <= k -> cms_new rows cols = Ok s0 -> Forall (fun e => 1 <= snd e) ins -> total ins < two64 ->
+  trun cpos (mkTopk k s0 []) ins = Ok t ->
+  (forall x, In x (map fst ins) -> cms_count cpos (t_sketch t) x = true_count ins x) ->
+  let vs := topk_values t in
+  (forall e, In e vs -> hfreq e = true_count ins (fst e)) /\
+  (forall x, In x (map fst ins) -> ~ In x (map fst vs) ->
+     forall e, In e vs -> true_count ins x <= true_count ins (fst e)).
+Proof. exact topk_exact_without_collisions. Qed.
+Print Assumptions C04_mem_exact_without_collisions.
+Theorem C04_redis_exact_without_collisions : forall (cpos : N -> N -> bytes -> list N) rows cols,
+  (forall x, length (cpos rows cols x) = N.to_nat rows) ->
+  (forall x p, In p (cpos rows cols x) -> p < cols) ->
+  forall s t H,
+  0 < rows -> 0 < cols -> RTI cpos rows cols s t H -> 1 <= rt_k t ->
+  (forall m, refines rows cols s (rt_sketch t) m -> repr cpos rows cols m H ->
+     forall x, In x (map fst H) -> cms_count cpos m x = true_count H x) ->
+  let vs := rtopk_values s t in
+  (forall e, In e vs -> hfreq e = true_count H (fst e)) /\
+  (forall x, In x (map fst H) -> ~ In x (map fst vs) ->
+     forall e, In e vs -> true_count H x <= true_count H (fst e)).
+Proof. exact redis_topk_exact_without_collisions. Qed.
+Print Assumptions C04_redis_exact_without_collisions.
+(* the hypothesis "exact on the inserted elements" is met, e.g., by two elements in different cells *)
+Definition cpos_first_byte (rows cols : N) (x : bytes) : list N := repeat (hd 0 x mod cols) (N.to_nat rows).
+Example C04_exactness_premises_hold :
+  exists s0 t, cms_new 2 3 = Ok s0 /\
+    trun cpos_first_byte (mkTopk 1 s0 []) [([1], 5); ([2], 7); ([1], 2)] = Ok t /\
+    forallb (fun x => cms_count cpos_first_byte (t_sketch t) x =? true_count [([1], 5); ([2], 7); ([1], 2)] x) [[1]; [2]] = true.
+Proof. eexists. eexists. split; [reflexivity|]. split; [vm_compute; reflexivity|vm_compute; reflexivity]. Qed.
